@@ -14,6 +14,7 @@ fn main() {
         "c07" => checks::c07::main(&a),
         "c08" => checks::c08::main(&a),
         "c12" => checks::c12::main(&a),
+        "c13" => checks::c13::main(&a),
         "c20" => checks::c20::main(&a),
         other => report::machinery(&format!("unknown check {other}")),
     }
